@@ -461,9 +461,9 @@ def fragment (env : Env) (sequence : Annotation) (args : Args) (massComponents :
   let terminalTypes := ionTypes.filter Ion.isTerminal
   let internalTypes := ionTypes.filter Ion.isInternal
   let immonium := decide (Ion.I ∈ ionTypes)
-  let t ← if terminalTypes ≠ [] then getTerminal j terminalTypes else pure []
-  let i ← if internalTypes ≠ [] then getInternal j internalTypes else pure []
-  let m ← if immonium then getImmonium j else pure []
+  let t ← (if terminalTypes ≠ [] then getTerminal j terminalTypes else pure [])
+  let i ← (if internalTypes ≠ [] then getInternal j internalTypes else pure [])
+  let m ← (if immonium then getImmonium j else pure [])
   pure (t ++ i ++ m)
 
 /-! ### `Fragmenter` -/
